@@ -66,7 +66,8 @@ theorem dropFold_specD (gh : DGhost) (t0 : TLState) (reqs : List Request) (st0 :
       (hs ≠ [] → ∀ g, g ∈ eph → g < s.sync.queues.length → (rget s'.localConnectStatus g).disconnected = true) ∧
       (∀ g, (rget s'.localConnectStatus g).lastFrame = (rget s.localConnectStatus g).lastFrame) ∧
       (s.sync.currentFrame ≤ L + 1 → s'.disconnectFrame = s.disconnectFrame) ∧
-      (∀ g, g ∉ eph → rget s'.localConnectStatus g = rget s.localConnectStatus g) := by
+      (∀ g, g ∉ eph → rget s'.localConnectStatus g = rget s.localConnectStatus g) ∧
+      s'.outgoingLocalInputs = s.outgoingLocalInputs ∧ s'.lastSentOutgoingInputFrame = s.lastSentOutgoingInputFrame := by
   intro hs
   induction hs with
   | nil =>
@@ -74,7 +75,7 @@ theorem dropFold_specD (gh : DGhost) (t0 : TLState) (reqs : List Request) (st0 :
     simp only [List.foldlM_nil] at hf
     have := pure_ok hf
     subst this
-    exact ⟨h, rfl, rfl, rfl, fun _ hd => hd, fun hne => absurd rfl hne, fun _ => rfl, fun _ => rfl, fun _ _ => rfl⟩
+    exact ⟨h, rfl, rfl, rfl, fun _ hd => hd, fun hne => absurd rfl hne, fun _ => rfl, fun _ => rfl, fun _ _ => rfl, rfl, rfl⟩
   | cons a rest ih =>
     intro s s' h cfg hf
     simp only [List.foldlM_cons] at hf
@@ -85,9 +86,9 @@ theorem dropFold_specD (gh : DGhost) (t0 : TLState) (reqs : List Request) (st0 :
     simp only [ha.1, if_true] at h1
     rw [hown.2] at h1
     have hpt := cfg.pt a List.mem_cons_self
-    obtain ⟨hinv1, hsy1, hh1, hp1, hmono1, hmark1, hL1, hdf1, hoth1⟩ := drop_specD s s1 gh t0 reqs st0 now a addr L ep h hpt hep
+    obtain ⟨hinv1, hsy1, hh1, hp1, hmono1, hmark1, hL1, hdf1, hoth1, hout1, hls1⟩ := drop_specD s s1 gh t0 reqs st0 now a addr L ep h hpt hep
       (by rw [heph]; exact cfg.rem) ⟨ha.2, hown.1, hown.2.symm⟩ cfg.L0 (by rw [heph]; exact cfg.same) h1
-    obtain ⟨_, _, _, _, _, _, _, _, _, _, hnp1, hfind1⟩ := P2P.disconnectAt_fields s s1 now a addr L ep hpt hep h1
+    obtain ⟨_, _, _, _, _, _, _, _, _, _, hnp1, hfind1, _, _⟩ := P2P.disconnectAt_fields s s1 now a addr L ep hpt hep h1
     have hlp : s1.localPlayerHandles = s.localPlayerHandles := by unfold P2P.localPlayerHandles; rw [hh1]
     have cfg1 : DropCfg s1 rest addr eph L st0 := by
       refine ⟨?_, ⟨_, hfind1, by rw [P2P.disconnect_handles, heph]⟩, fun x hx => cfg.sub x (List.mem_cons_of_mem _ hx),
@@ -108,10 +109,10 @@ theorem dropFold_specD (gh : DGhost) (t0 : TLState) (reqs : List Request) (st0 :
           | false => rfl
           | true => have := hmono1 g hx; rw [hc] at this; cases this
         exact cfg.same g hg hgn hc'
-    obtain ⟨hinv', hsy', hh', hp', hmono', _, hL', hdf', hoth'⟩ := ih s1 s' hinv1 cfg1 hf
+    obtain ⟨hinv', hsy', hh', hp', hmono', _, hL', hdf', hoth', hout', hls'⟩ := ih s1 s' hinv1 cfg1 hf
     refine ⟨hinv', hsy'.trans hsy1, hh'.trans hh1, hp'.trans hp1, fun g hd => hmono' g (hmono1 g hd), ?_,
       fun g => (hL' g).trans (hL1 g), fun hle => (hdf' (by rw [hsy1]; exact hle)).trans (hdf1 hle),
-      fun g hg => (hoth' g hg).trans (hoth1 g (by rw [heph]; exact hg))⟩
+      fun g hg => (hoth' g hg).trans (hoth1 g (by rw [heph]; exact hg)), hout'.trans hout1, hls'.trans hls1⟩
     intro _ g hg hgn
     exact hmono' g (hmark1 g (by rw [heph]; exact hg) hgn)
 
